@@ -10,6 +10,7 @@
 //	big       one metric with more series than one (thorough: two) roaring containers hold
 //	conc      queries while flushes / compactions / writes run freely
 //	unmap     a group-by query held between shard scan and grouping while the forward family is compacted
+//	park      a dictionary / index flush parked at each of its file-system steps in turn, lookups and writers inside
 //	directed  fixed scenarios (single-star like, atoms with equal Rewrite text, refusal of an unknown tag key, comma
 //	          values in group by, a query parked between its snapshot and its memory read while a flush completes)
 //
@@ -48,8 +49,9 @@ func main() {
 		"`group by uid` or a random key subset) asked through the real root -> leaf path at one state of one history: a generated data set (6-500 series, " +
 		"unique uid tag, shared/missing keys, prefix-related, unicode, metacharacter and whitespace values, a second metric with the same values) written in " +
 		"3-4 batches with index/metadata PrepareFlush, Flush, production flush, compaction and close+reopen placed between and after the batches " +
-		"(5 fixed placements + random ones); plus one-metric data sets crossing roaring container boundaries, queries during free-running flushes and " +
-		"directed scenarios. Non-trivial = the oracle selects a non-empty proper subset of the written series; distinct by (data set, placement, round, query).")
+		"(5 fixed placements + random ones); plus one-metric data sets crossing roaring container boundaries, queries during free-running flushes, " +
+		"a dictionary / index flush parked at each of its file-system steps (table file create / write / close, manifest write / sync, learned from a counting " +
+		"round) with exact-match lookups and writers of flushed values executed inside and every atom kind asked after it completed, and directed scenarios. Non-trivial = the oracle selects a non-empty proper subset of the written series; distinct by (data set, placement, round, query).")
 	c.Assume("language semantics as read from sql/grammar/SQL.g4, sql/base_stmt_parser.go, index/kv_store.go and query/operator/series_filtering.go and confirmed by a probe " +
 		"through the real query path: an atom speaks about series that have the key; a negated atom (!=, <>, not in, not like, !~) selects series that have the key and do not match; " +
 		"like treats * only as first and/or last character (suffix / prefix / contains), otherwise it is an exact match, the empty pattern matches nothing; " +
@@ -61,6 +63,9 @@ func main() {
 		"an explicit `tag key not found` error, also inside an `or` (like an unknown column): no set is selected, so this is not a wrong selection. The oracle requires exactly that refusal " +
 		"when, and only when, such a key is named (counter unknown_key_refused; an empty result without error counts as the same refusal, the root drops a fast leaf's error now and then); " +
 		"the same error for a key the schema has, or an answer instead of the refusal, is a violation")
+	c.Assume("park cases: MetricMetaDatabase.GenTagValueID of a value that was written returns the id the value got when it was created (it is how the write path " +
+		"asks); a changed id means the dictionary lost the value. Whether the lookups ran inside the window is decided on logical events (they completed before " +
+		"the harness released the parked flush); a step at which they cannot complete is counted as blocked and not judged")
 	c.Assume("timestamps lie 2 hours in the past of the child's start (hour aligned + 10 min); TZ=UTC for the children; race detector reports do not decide C10, no race variant is built")
 
 	var jobs []job
@@ -77,6 +82,9 @@ func main() {
 		jobs = append(jobs, job{"directed", i})
 	}
 	jobs = append(jobs, job{"unmap", 0})
+	for i := 0; i < c.Pick(4, 16); i++ {
+		jobs = append(jobs, job{"park", i})
+	}
 	if only := os.Getenv("C10_ONLY_KIND"); only != "" {
 		var js []job
 		for _, j := range jobs {
@@ -86,9 +94,19 @@ func main() {
 		}
 		jobs = js
 	}
+	if skip := os.Getenv("C10_SKIP_KIND"); skip != "" {
+		// measurement aid only: the run ends inconclusive (the skipped kind's observations are missing)
+		var js []job
+		for _, j := range jobs {
+			if j.kind != skip {
+				js = append(js, j)
+			}
+		}
+		jobs = js
+	}
 	// long jobs first
 	ordered := make([]int, 0, len(jobs))
-	for _, k := range []string{"big", "conc", "directed", "unmap", "hist"} {
+	for _, k := range []string{"big", "conc", "directed", "park", "unmap", "hist"} {
 		for i, j := range jobs {
 			if j.kind == k {
 				ordered = append(ordered, i)
@@ -98,6 +116,7 @@ func main() {
 	scratch := c.Scratch()
 	results := make([]*caseResult, len(jobs))
 	died := make([]string, len(jobs))
+	partial := make([]*caseResult, len(jobs))
 	workers := runtime.NumCPU()
 	if workers > 16 {
 		workers = 16
@@ -124,6 +143,9 @@ func main() {
 			died[i] = "watchdog\n" + tail(cr.Output, 3000)
 		case err != nil || cr.ExitCode != 0:
 			died[i] = fmt.Sprintf("exit=%d err=%v\n%s", cr.ExitCode, err, crashHead(out, cr.Output))
+			if err == nil && len(r.Violations) > 0 {
+				partial[i] = r // the child died after it had recorded violations (park cases save their result per round)
+			}
 		default:
 			results[i] = r
 		}
@@ -136,6 +158,11 @@ func main() {
 		j := jobs[i]
 		if r == nil {
 			msg := died[i]
+			if pr := partial[i]; pr != nil {
+				for _, v := range pr.Violations {
+					c.Violation(v.Class, v.Message, v.Witness)
+				}
+			}
 			if strings.HasPrefix(msg, "watchdog") {
 				c.Inconclusive("%s %d: child watchdog fired", j.kind, j.idx)
 				continue
@@ -147,7 +174,7 @@ func main() {
 				c.Violation("C10/use-after-unmap/"+fn, fmt.Sprintf("%s %d: the node died with SIGSEGV reading an unmapped table file in %s: %s", j.kind, j.idx, fn, tail(msg, 800)),
 					map[string]interface{}{"kind": j.kind, "index": j.idx, "output": msg})
 			} else if frame := anchoredFrame(msg); frame != "" {
-				c.Violation("C10/process-died/"+frame, fmt.Sprintf("%s %d: child died in anchored code: %s", j.kind, j.idx, tail(msg, 1500)),
+				c.Violation("C10/process-died/"+frame, fmt.Sprintf("%s %d: child died in anchored code: %s", j.kind, j.idx, clip(msg, 1500)),
 					map[string]interface{}{"kind": j.kind, "index": j.idx, "output": tail(msg, 8000)})
 			} else {
 				c.Count("children_died_outside_anchored_code", 1)
@@ -201,6 +228,15 @@ func finishChecks(c *core.Ctx) {
 		"metrics_with_series_ids_beyond_65535":                1,
 		"concurrent_queries_with_a_nonempty_lower_bound":      200,
 		"conc_flush_cycles":                                   50,
+		// park cases: lookups and writers that ran to completion while a flush was parked, in particular at the close of the
+		// new table file (every entry handed to the kv flusher, the store still on its old snapshot)
+		"park_lookups_and_writes_completed_inside_a_parked_flush": 40,
+		"park_inside.close_tv/table":                              1,
+		"park_inside.sync_manifest":                               4,
+		"park_inside.close_inverted/table":                        1,
+		"park_inside.close_forward/table":                         1,
+		"park_tag_value_ids_compared.during":                      100,
+		"park_tag_value_ids_compared.after":                       100,
 	}
 	if c.Counter("grouping_stages_parked_after_the_shard_scan") < 1 && c.Counter("children_died_reading_an_unmapped_table_file") < 1 {
 		c.Inconclusive("the unmap case neither parked a grouping stage nor died in the grouping scan")
@@ -234,6 +270,8 @@ func runCaseChild() {
 		res = runDirectedCase(idx, dir, tier, seed)
 	case "unmap":
 		res = runUnmapCase(idx, dir, tier, seed)
+	case "park":
+		res = runParkCase(idx, dir, tier, seed)
 	default:
 		fmt.Println("unknown case kind", kind)
 		os.Exit(4)
@@ -242,13 +280,14 @@ func runCaseChild() {
 }
 
 // crashHead returns the part of a child's log that starts at the Go crash header (panic / fatal error) and holds
-// the crashing goroutine's stack; the tail of the output if there is no such header.
+// the crashing goroutine's stack; the tail of the output if there is no such header. The header may be the very first
+// line of the log (a child that logs nothing before it dies).
 func crashHead(logFile, fallback string) string {
 	data, err := os.ReadFile(logFile)
 	if err != nil {
 		return tail(fallback, 8000)
 	}
-	s := string(data)
+	s := "\n" + string(data)
 	i := strings.Index(s, "\nfatal error:")
 	if j := strings.Index(s, "\npanic:"); j >= 0 && (i < 0 || j < i) {
 		i = j
@@ -258,7 +297,12 @@ func crashHead(logFile, fallback string) string {
 	}
 	s = s[i+1:]
 	if len(s) > 8000 {
-		s = s[:8000]
+		// keep whole lines of the crashing goroutine's stack: cut at a goroutine boundary when there is one
+		if e := strings.LastIndex(s[:8000], "\n\n"); e > 0 {
+			s = s[:e+2]
+		} else {
+			s = s[:8000]
+		}
 	}
 	return s
 }
@@ -308,10 +352,17 @@ func faultFrame(out string) string {
 	return ""
 }
 
-// anchoredFrame returns the anchored file of the first goroutine's stack (the crashing one) in a Go crash dump.
-func anchoredFrame(out string) string {
-	start := strings.Index(out, "panic:")
-	if f := strings.Index(out, "fatal error:"); f >= 0 && (start < 0 || f < start) {
+// anchoredDirs are packages that the C10 workloads reach only through the anchored files (the dictionary's trie
+// buckets and the index table readers / mergers): a death of the crashing goroutine inside them is a death of the
+// anchored mechanism even when the frame of the anchored file itself is not on the stack (e.g. a callback).
+var anchoredDirs = []string{"index/model/", "index/v1/", "pkg/trie/"}
+
+// crashingStack returns the stack of the goroutine the Go runtime reports as panicking / faulting: the first goroutine
+// block after the `panic:` / `fatal error:` line ("" when the output holds no crash dump).
+func crashingStack(out string) string {
+	out = "\n" + out
+	start := strings.Index(out, "\npanic:")
+	if f := strings.Index(out, "\nfatal error:"); f >= 0 && (start < 0 || f < start) {
 		start = f
 	}
 	if start < 0 {
@@ -326,9 +377,34 @@ func anchoredFrame(out string) string {
 	if e := strings.Index(stack, "\n\n"); e >= 0 {
 		stack = stack[:e]
 	}
-	for _, f := range anchoredFiles {
-		if strings.Contains(stack, "/"+f+":") {
-			return strings.ReplaceAll(f, "/", "_")
+	return stack
+}
+
+// anchoredFrame returns the innermost anchored file (else the innermost anchored package) on the stack of the crashing
+// goroutine of a Go crash dump, "" if that goroutine was not inside the anchored mechanism.
+func anchoredFrame(out string) string {
+	stack := crashingStack(out)
+	if stack == "" {
+		return ""
+	}
+	lines := strings.Split(stack, "\n")
+	for _, l := range lines {
+		l = strings.TrimSpace(l)
+		for _, f := range anchoredFiles {
+			if strings.Contains(l, "/"+f+":") {
+				return strings.ReplaceAll(f, "/", "_")
+			}
+		}
+	}
+	for _, l := range lines {
+		l = strings.TrimSpace(l)
+		if strings.Contains(l, "/verif/") {
+			continue
+		}
+		for _, d := range anchoredDirs {
+			if i := strings.Index(l, "/"+d); i >= 0 && strings.Contains(l[i:], ".go:") {
+				return strings.ReplaceAll(strings.TrimSuffix(d, "/"), "/", "_")
+			}
 		}
 	}
 	return ""
